@@ -43,24 +43,23 @@ func UnmarshalCursor[Options any](v string, modifiers ...func(query *InitialPagi
 		return nil, fmt.Errorf("invalid cursor: %w", err)
 	}
 
-	var q PaginatedQuery[Options]
+	var (
+		q    PaginatedQuery[Options]
+		root *InitialPaginatedQuery[Options]
+	)
 	if x.Offset != nil { // Offset defined, this is an offset cursor
-		q = &OffsetPaginatedQuery[Options]{}
+		offsetQuery := &OffsetPaginatedQuery[Options]{}
+		if err := json.Unmarshal(res, offsetQuery); err != nil {
+			return nil, fmt.Errorf("invalid cursor: %w", err)
+		}
+		q, root = offsetQuery, &offsetQuery.InitialPaginatedQuery
 	} else {
-		q = &ColumnPaginatedQuery[Options]{}
+		columnQuery := &ColumnPaginatedQuery[Options]{}
+		if err := json.Unmarshal(res, columnQuery); err != nil {
+			return nil, fmt.Errorf("invalid cursor: %w", err)
+		}
+		q, root = columnQuery, &columnQuery.InitialPaginatedQuery
 	}
-
-	if err := json.Unmarshal(res, &q); err != nil {
-		return nil, err
-	}
-
-	var root *InitialPaginatedQuery[Options]
-	if x.Offset != nil { // Offset defined, this is an offset cursor
-		root = &q.(*OffsetPaginatedQuery[Options]).InitialPaginatedQuery
-	} else {
-		root = &q.(*ColumnPaginatedQuery[Options]).InitialPaginatedQuery
-	}
-
 	for _, modifier := range modifiers {
 		if err := modifier(root); err != nil {
 			return nil, err
